@@ -1113,7 +1113,7 @@ def c04(ctx):
         return renumber_ids(out)
     pcf = read_ndjson(pats("plainctx", 0))
     if ctx.quick:
-        spaces = [("plainctx", variants(sample(ctx, pcf, 150), 0.1), t3, "fi,ci,sp,co,rows"),
+        spaces = [("plainctx", variants(pcf, 0.1), t3, "fi,ci,sp,co,rows"),
                   ("plain123", variants(sample(ctx, plain, 600), 0.15), t3, "fi,ci,sp,co,rows"),
                   ("plain_rp", variants(sample(ctx, plain, 400), 0.15), t2, "rp"),
                   ("random_plain", variants(randgen.random_pats(ctx.rng, "plain", 500, depth=3), 0.15), t3, "fi,ci,sp,co,rows"),
